@@ -47,7 +47,7 @@ type Choices struct {
 	AmbrDL, AmbrUL int64
 	QosRulesLen int
 	SessAmbr    []byte // Session-AMBR contents of the accept (unit DL, value DL, unit UL, value UL); nil = 1000 Mbps both ways
-	AcceptOpt   uint // optional IEs of PDU SESSION ESTABLISHMENT ACCEPT in front of the PDU address: bit0 5GSM cause
+	AcceptOpt   uint // optional IEs of PDU SESSION ESTABLISHMENT ACCEPT in front of the PDU address: bit0 5GSM cause; bit1: IEs of later releases (17, 18, 77) at the end; bit2: SSC mode 3
 	PerUE       int  // how the 5G-AKA vector varies from UE to UE: 0 fresh RAND, same SQN; 1 same RAND, SQN+k; 2 fresh RAND, SQN+k; 3 same RAND, same SQN
 }
 
@@ -992,6 +992,14 @@ func (a *AMF) setupRequest(u *UE) []byte {
 	acc = append(acc, 0x7b, 0x00, 0x08, 0x80, 0x00, 0x0d, 0x04, 8, 8, 8, 8)
 	acc = append(acc, 0x25, 0x09, 0x08)
 	acc = append(acc, []byte("internet")...)
+	if a.Ch.AcceptOpt&2 != 0 {
+		// IEs of later releases behind the Release 15 ones: 5GSM network feature support, serving PLMN rate control
+		// (a value whose octets look like a PDU address IE), ATSSS container
+		acc = append(acc, 0x17, 0x01, 0x29, 0x18, 0x02, 0x01, 0x29, 0x77, 0x00, 0x03, 0x29, 0x05, 0x01)
+	}
+	if a.Ch.AcceptOpt&4 != 0 {
+		acc[4] = 0x31 // SSC mode 3 selected, PDU session type IPv4
+	}
 	dl := []byte{0x7e, 0x00, 0x68, 0x01, byte(len(acc) >> 8), byte(len(acc))}
 	dl = append(dl, acc...)
 	dl = append(dl, 0x12, u.PSI)
